@@ -309,7 +309,7 @@ class Constraint:
         """Return true if the constraint is an excludes constraint."""
         root_op = self._ast.root
         if root_op.is_binary_op():
-            if root_op.data in [ASTOperation.EXCLUDES, ASTOperation.XOR]:
+            if root_op.data == ASTOperation.EXCLUDES:
                 return root_op.left.is_term() and root_op.right.is_term()
 
             if root_op.data in [ASTOperation.REQUIRES, ASTOperation.IMPLIES]:
